@@ -347,6 +347,13 @@ F("SYNC-argparse-target-of-function-truth-cannot-become-truth", SYNCP,
   "(AttributeError)",
   ["NoInternalError"], when={"k": "sync", "truth": "argparse", "exc": "AttributeError", "switched": True})
 
+# ------------------------------------------------------------------------------------------------ sync_properties (C14)
+F("SYNCPROPS-earlier-pair-renames-onto-later-address", ["C14"],
+  "sync_properties applies the pairs one after the other on the tree it is changing; a replaced node takes the *name* of its "
+  "input, so when a later pair addresses a sibling of that name the location resolves to the node just written and the "
+  "originally addressed one is left alone",
+  ["AllPairsApplied", "OnlyAddressedChanged"], when={"k": "syncprops", "rename_clash": True})
+
 # ------------------------------------------------------------------------------------------------ merge (C07, C12)
 F("MERGE-undocumented-kwargs-dropped", ["C07"],
   "parse.function / parse.class_ keep a **kwargs parameter only when the docstring documents it (adding it is pinned out by the "
